@@ -53,7 +53,15 @@ def main():
 
     import random
     random.seed(a.seed * 1000 + a.part)
-    fn = h.make(params, a.part, a.nparts)
+    try:
+        fn = h.make(params, a.part, a.nparts)
+    except (ImportError, AttributeError) as e:
+        if not getattr(h, 'stub_kernel', False):
+            raise
+        # the private function a kernel harness drives is gone (renamed / inlined): the kernel does not apply to this tree
+        print('\nVPJSON ' + json.dumps(dict(inapplicable='%s: %s' % (type(e).__name__, e), paths=0, part=a.part, impl=a.impl,
+                                             exhausted=False)))
+        return 0
     st = symx.explore(fn, budget_s=a.budget, per_path_timeout=a.ppt, seed=a.seed)
     st['part'] = a.part
     st['impl'] = a.impl
